@@ -19,7 +19,10 @@ Outstanding == {"id1", "id2"}
 Irt   == {"id1", "idX", "none"}            \* Response/@InResponseTo
 Sirt  == {"id1", "id2", "idX", "none"}     \* bearer SubjectConfirmationData/@InResponseTo
 Dest  == {"own", "otherBinding", "patternOnly", "foreign", "none"}
-Aud   == {"none", "me", "other", "me_me", "me_other", "other_other", "meAndOther"}
+\* "meSlash" / "meUpper": one restriction naming the SP's entity id with a trailing slash / in capitals -- other names
+Aud   == {"none", "me", "other", "me_me", "me_other", "other_other", "meAndOther", "meSlash", "meUpper"}
+\* which validity bounds the Conditions element carries (the audience restrictions bind whatever the window says)
+Window == {"both", "none", "nbOnly", "nooaOnly"}
 Recip == {"url", "entityid", "otherBinding", "foreign"}
 Bind  == {"post", "redirect"}
 \* the third browser binding: the response was fetched by artifact and is parsed with binding = HTTP-Artifact
@@ -36,7 +39,7 @@ Scn == [irt : Irt, sirt : Sirt, dest : Dest, aud : Aud, recip : Recip, allow : B
         sameFrom : BOOLEAN,
         \* an authentication response over a browser binding, or the answer to an attribute query (synchronous, SOAP:
         \* no solicitation bookkeeping, no Destination check -- but the audience restrictions bind all the same)
-        mtype : {"authn", "attribute"}]
+        mtype : {"authn", "attribute"}, window : Window]
 \* "triples": the same two endpoints written as (location, binding, index) -- the third form the metadata generator
 \* accepts.  Config.endpoint does not unpack it: nothing ever equals such an entry.
 \* without an endpoint for the arrival binding only the addressing dimensions are varied
@@ -48,15 +51,19 @@ WellFormed(s) == /\ s.endpoint = "otherBindingOnly" =>
                  /\ (s.mtype = "attribute" => /\ s.endpoint = "configured" /\ s.conf2 = "absent" /\ ~s.sameFrom /\ ~s.regex /\ ~s.enc
                                              /\ s.dest = "none" /\ s.irt = "id1" /\ s.sirt = "id1" /\ s.recip = "url" /\ s.binding = "post" /\ ~s.conv)
                  /\ (s.conf2 = "absent" => ~s.conf2first)
+                 /\ (s.window # "both" => /\ s.endpoint = "configured" /\ s.conf2 = "absent" /\ ~s.sameFrom /\ ~s.regex /\ s.mtype = "authn"
+                                          /\ s.irt = "id1" /\ s.sirt = "id1" /\ s.dest = "own" /\ s.recip = "url")
                  /\ (s.sameFrom => s.irt = "id1" /\ s.sirt \in {"id1", "id2"} /\ s.conf2 = "absent" /\ s.endpoint = "configured"
                                    /\ s.aud = "me" /\ s.dest \in {"own", "none"} /\ ~s.regex)
                  /\ s.conf2 # "absent" => /\ s.endpoint = "configured" /\ s.aud = "me" /\ s.dest \in {"own", "none"} /\ ~s.regex
                                           /\ s.irt = "id1" /\ s.sirt = "id1"
 
 \* the scenarios, built slice by slice (filtering the full product of Scn costs TLC a minute)
-Mk(irt, sirt, dest, aud, recip, regex, binding, enc, endpoint, conf2, conf2first, sameFrom, mtype, conv) ==
+MkW(irt, sirt, dest, aud, recip, regex, binding, enc, endpoint, conf2, conf2first, sameFrom, mtype, conv, window) ==
     [irt : irt, sirt : sirt, dest : dest, aud : aud, recip : recip, allow : BOOLEAN, conv : conv, regex : regex, binding : binding,
-     enc : enc, endpoint : endpoint, conf2 : conf2, conf2first : conf2first, sameFrom : sameFrom, mtype : mtype]
+     enc : enc, endpoint : endpoint, conf2 : conf2, conf2first : conf2first, sameFrom : sameFrom, mtype : mtype, window : window]
+Mk(irt, sirt, dest, aud, recip, regex, binding, enc, endpoint, conf2, conf2first, sameFrom, mtype, conv) ==
+    MkW(irt, sirt, dest, aud, recip, regex, binding, enc, endpoint, conf2, conf2first, sameFrom, mtype, conv, {"both"})
 Scenarios ==
     Mk(Irt, Sirt, Dest, Aud, Recip, BOOLEAN, Bind, BOOLEAN, {"configured"}, {"absent"}, {FALSE}, {FALSE}, {"authn"}, BOOLEAN)
     \cup Mk({"id1"}, {"id1"}, {"otherBinding", "patternOnly", "foreign", "none"}, {"me"}, {"otherBinding", "entityid", "foreign"}, BOOLEAN, Bind,
@@ -67,6 +74,8 @@ Scenarios ==
     \cup Mk({"id1"}, {"id1"}, {"own", "none"}, {"me"}, Recip, {FALSE}, Bind, BOOLEAN, {"configured"}, {"own", "foreign", "otherIrt"}, BOOLEAN, {FALSE}, {"authn"}, BOOLEAN)
     \cup Mk(Irt, Sirt, {"own", "foreign", "none"}, {"me"}, {"url", "foreign"}, {FALSE}, {"artifact"}, {FALSE}, {"configured"}, {"absent"}, {FALSE}, {FALSE},
             {"authn"}, BOOLEAN)
+    \cup MkW({"id1"}, {"id1"}, {"own"}, Aud, {"url"}, {FALSE}, Bind, BOOLEAN, {"configured"}, {"absent"}, {FALSE}, {FALSE}, {"authn"}, BOOLEAN,
+             Window \ {"both"})
 ASSUME \A s \in Scenarios : s \in Scn /\ WellFormed(s)
 
 \* audience restrictions as a sequence of sets of audiences
@@ -77,6 +86,8 @@ Restr(a) == CASE a = "none" -> <<>>
               [] a = "me_other" -> <<{"me"}, {"other"}>>
               [] a = "other_other" -> <<{"other"}, {"other2"}>>
               [] a = "meAndOther" -> <<{"other", "me"}>>
+              [] a = "meSlash" -> <<{"meSlash"}>>
+              [] a = "meUpper" -> <<{"meUpper"}>>
 
 VARIABLES scn, pc, cameFrom, verdict
 vars == <<scn, pc, cameFrom, verdict>>
